@@ -197,6 +197,7 @@ def step (st : DState) (line : String) : DState × String :=
       (st, (if ok then "0" else "1") ++ " " ++ (match file with
         | none => "nofile"
         | some bs => toHex bs))
+    | "H", [_], _ => (st, "ok")      -- descriptor budget of the implementation process: no state of the model
     | "G", [], some a => (st, toString a.offset)
     | "D", [f, t], some a =>
       let f := f.toNat!
